@@ -8,7 +8,10 @@ Record pmn := mkPMN { n_groups : list pm; n_pf : bool }.
 
 Inductive nevent :=
 | NE (k : nat) (e : pevent)      (* proposal / bounds update / result concerning group k *)
-| NTick (now : Z).               (* timer: drop old proposals everywhere, nothing sent *)
+| NTick (now : Z)                (* timer: drop old proposals everywhere, nothing sent *)
+| NRestart.                      (* stop() followed by start(): `_run` is re-entered; its local
+                                    partial-failure flag starts again at False, everything else
+                                    (buckets, stored targets, cached bounds, tracker tasks) persists *)
 
 Fixpoint upd {A} (l : list A) (k : nat) (x : A) : list A :=
   match l, k with
@@ -26,6 +29,7 @@ Definition tick_pm (ma_reg ma_op now : Z) (st : pm) : pm :=
 Definition nstep (ma_reg ma_op : Z) (st : pmn) (ev : nevent) : pmn * option (nat * option Z * bool) :=
   match ev with
   | NTick now => (mkPMN (map (tick_pm ma_reg ma_op now) (n_groups st)) (n_pf st), None)
+  | NRestart => (mkPMN (n_groups st) false, None)
   | NE k e =>
       match nth_error (n_groups st) k with
       | None => (st, None)
